@@ -12,8 +12,9 @@ def run(tier: str, seed: int) -> Report:
     rep.rule = (
         "cases = pair: every frame with <= 2 rows x <= 2 columns over the per-type domains int {0,1,2}, float {0.0,0.5,NaN}, str {'a','b',null}, bool, "
         "object {1,'1','a'} (quick: second column of 2x2 frames int only), paired with every frame differing in exactly one value / one column name / "
-        "shape / column order / row order / the dtype of one column with equal values, and with a rebuilt equal frame: keys (hash_data_frame and make_cache_key) "
-        "equal <=> a.equals(b); datamap: key independent of dict insertion order and of the model instance, different for another dialect / SQL text / table name / "
+        "shape / column order / row order / the dtype of one column with equal values, and with a rebuilt equal frame: a.equals(b) => keys (hash_data_frame and "
+        "make_cache_key) equal; tables differing in a value / column name / shape / row order => keys differ; dtype-only differences with ==-equal values: nothing "
+        "demanded, counted in dtype_only_pairs_sharing_a_key; datamap: key independent of dict insertion order and of the model instance, different for another dialect / SQL text / table name / "
         "table value / extra or missing table / swapped frames; history: all store/get histories up to the length bound over 2 keys x 2 results x (mutate the "
         "returned copy | mutate the caller's result and data-map frame after store) against a dict model, the whole view (both keys) compared after every step, "
         "for 4 choices of the single component in which the two keys differ (SQL text, dialect, one data value, row order). NONTRIVIAL = keys / views compared "
@@ -25,7 +26,8 @@ def run(tier: str, seed: int) -> Report:
         % (sz["base_frames"], 3, " (length 4 for the key pairs differing in the SQL text / one data value)" if tier == "thorough" else "", sz["history_alphabet"], sz["key_variants"])
     )
     rep.assumptions = [
-        "'equal data tables' is pandas DataFrame.equals: same shape, labels, dtypes and values, null == null; frames that differ only in a column dtype are different tables",
+        "'equal data tables' (keys must be equal) is pandas DataFrame.equals; 'differ' (keys must differ) is the statement's list: a value, a column name, the shape or the row order (cbc.c25.same_values is False)",
+        "tables holding pairwise ==-equal values under different column dtypes (int64 vs bool/int32/Int64, 0 vs 0.0, str vs object, empty columns) differ in none of the listed respects: no demand on their keys, shared keys are counted as information only",
         "dialect = str(db_model) (the model's class name); two model instances of one dialect are the same dialect",
         "the dict model of the histories is keyed by the key index: the two keys of a history differ in exactly one component by construction",
         "ResultCache.dirty and ResultCache.data_cache (debugging copies) are outside the property",
